@@ -709,9 +709,11 @@ def o2_space() -> typing.Iterator[typing.Tuple[dict, bool, bool]]:
             for lead in LEADS:
                 for trail in TRAILS:
                     for ws in WS:
-                        core = (enc[0] == "none" and trail in ("", "\ny\n")) or (
-                            lead == "x\n" and trail == "\ny\n" and ws == "  "
-                        )
+                        core = (
+                            enc[0] == "none"
+                            and ws != "    "
+                            and (trail == "\ny\n" or (trail == "" and lead in ("", "x\n")))
+                        ) or (lead == "x\n" and trail == "\ny\n" and ws == "  ")
                         fixed = lead == "x\n" and trail == "\ny\n" and ws == "  "
                         if cons.name in HTML_CONSTRUCTS:
                             core_ae = fixed or (
@@ -1063,7 +1065,8 @@ def run(ctx: Ctx) -> int:
                 o1_total += 1
             else:
                 o1a_total += 1
-            if not (core or ctx.in_slice(sub + t.name)):
+            # quick: fixed core + a seed-selected 1/32 slice of the rest (1/16 for the small autoescape sub-space)
+            if not (core or ctx.in_slice(sub + t.name, 32 if sub == "O1:" else 16)):
                 continue
             src = sub + t.src + "\x00" + ",".join(t.flags)
             if src in seen:
@@ -1077,7 +1080,7 @@ def run(ctx: Ctx) -> int:
     for case, core, core_ae in o2_space():
         o2_total += 1
         cid = "O2:" + repr(sorted(case.items()))
-        off = core or ctx.in_slice(cid)
+        off = core or ctx.in_slice(cid, 32)
         on = core_ae or ctx.in_slice(cid + ":autoescape", 16 if ctx.thorough else 64)
         if off or on:
             o2.append((case, tuple(a for a, use in ((False, off), (True, on)) if use)))
